@@ -297,16 +297,25 @@ func runC05(c *Ctx) {
 			}
 			c.check(bad == "", fn, "wake-up on every path", a.Instr.Pos(), "every Post that queued a handler wakes the loop", bad+": a Post landing while a batch is being dispatched is left queued with nobody to wake the loop")
 		}
-		// the function that takes the queue
-		var take []fieldAccess
+		// the function that takes the queue (directly, or through a helper that detaches and returns it)
+		var take []ssa.Instruction
 		for _, a := range fieldAccesses(fn, posts) {
 			if a.Kind == "load" && elementsInvoked(fn, a.Val, posts) {
-				take = append(take, a)
+				take = append(take, a.Instr)
 			}
 		}
-		for _, a := range take {
-			reach := reachableAvoiding(a.Instr, func(in ssa.Instruction) bool { return isCallToFn(in, efdRead) })
-			c.check(!reach, fn, "take queue", a.Instr.Pos(), "the eventfd is drained before the queue is taken", "the queue is taken on a path that has not drained the eventfd first: a Post in between is left queued with its wake-up consumed")
+		eachInstr(fn, func(in ssa.Instruction) {
+			if call, ok := in.(*ssa.Call); ok {
+				if _, ok := returnsLoadOf(call.Call.StaticCallee(), posts); ok && elementsInvoked(fn, call, posts) {
+					take = append(take, in)
+				}
+			}
+		})
+		for _, tk := range take {
+			reach := reachableAvoiding(tk, func(in ssa.Instruction) bool {
+				return doesDeep(in, func(x ssa.Instruction) bool { return isCallToFn(x, efdRead) })
+			})
+			c.check(!reach, fn, "take queue", tk.Pos(), "the eventfd is drained before the queue is taken", "the queue is taken on a path that has not drained the eventfd first: a Post in between is left queued with its wake-up consumed")
 		}
 	}
 
@@ -320,7 +329,21 @@ func runC05(c *Ctx) {
 				first := call.Call.Args[0]
 				c.check(loadOfField(first, posts), fn, "append", a.Instr.Pos(), "the handler is appended at the tail of the current queue", "Post does not append to the tail of the current queue (order of posted handlers is not preserved)")
 			}
-			if a.Kind != "load" || !elementsInvoked(fn, a.Val, posts) {
+			if a.Kind != "load" {
+				continue
+			}
+			// where are the elements of this load invoked: here, or in the callers of a helper that returns it
+			runners := []*ssa.Function{}
+			if elementsInvoked(fn, a.Val, posts) {
+				runners = append(runners, fn)
+			} else if rv, ok := returnsLoadOf(fn, posts); ok && rv == stripConv(a.Val) {
+				for _, cs := range p.callers(fn) {
+					if v, ok := cs.(ssa.Value); ok && elementsInvoked(cs.Parent(), v, posts) {
+						runners = append(runners, cs.Parent())
+					}
+				}
+			}
+			if len(runners) == 0 {
 				continue
 			}
 			// the field must be emptied in the same critical section
@@ -337,11 +360,17 @@ func runC05(c *Ctx) {
 			}
 			// emptied value: nil, or fresh; if handlers run outside the lock it must not alias the batch
 			runsOutside := false
-			eachInstr(fn, func(in ssa.Instruction) {
-				if call, ok := in.(ssa.CallInstruction); ok && isDynamicFuncCall(call) && fromPosts(call.Common().Value, posts) && !may[in] {
-					runsOutside = true
+			for _, rf := range runners {
+				rmay := may
+				if rf != fn {
+					rmay, _ = lockStates(rf, isLock, isUnlock)
 				}
-			})
+				eachInstr(rf, func(in ssa.Instruction) {
+					if call, ok := in.(ssa.CallInstruction); ok && isDynamicFuncCall(call) && fromPosts(call.Common().Value, posts) && !rmay[in] {
+						runsOutside = true
+					}
+				})
+			}
 			alias := !isNil(empt.Val) && dependsOn(empt.Val, a.Val)
 			if sl, ok := strip(empt.Val).(*ssa.Slice); ok && loadOfField(sl.X, posts) {
 				alias = true
@@ -349,15 +378,18 @@ func runC05(c *Ctx) {
 			c.check(!(runsOutside && alias), fn, "hand-over", a.Instr.Pos(), "queue swapped out under the lock; the new queue does not share storage with the running batch",
 				"the emptied queue shares its backing array with the batch being run outside the lock: a concurrent Post overwrites handlers that have not run yet")
 			// forward iteration
-			eachInstr(fn, func(in ssa.Instruction) {
-				call, ok := in.(ssa.CallInstruction)
-				if !ok || !isDynamicFuncCall(call) || !fromPosts(call.Common().Value, posts) {
-					return
-				}
-				u := strip(call.Common().Value).(*ssa.UnOp)
-				ia := u.X.(*ssa.IndexAddr)
-				c.check(increasingIndex(ia.Index), fn, "iteration", in.Pos(), "handlers are run in queue order", "handlers are not run in increasing queue order")
-			})
+			for _, rf := range runners {
+				rf := rf
+				eachInstr(rf, func(in ssa.Instruction) {
+					call, ok := in.(ssa.CallInstruction)
+					if !ok || !isDynamicFuncCall(call) || !fromPosts(call.Common().Value, posts) {
+						return
+					}
+					u := strip(call.Common().Value).(*ssa.UnOp)
+					ia := u.X.(*ssa.IndexAddr)
+					c.check(increasingIndex(ia.Index), rf, "iteration", in.Pos(), "handlers are run in queue order", "handlers are not run in increasing queue order")
+				})
+			}
 		}
 	}
 
@@ -400,13 +432,28 @@ func runC05(c *Ctx) {
 			c.ok(fn, "runs handlers", fn.Pos(), "handlers run in Poll")
 			continue
 		}
-		cs := p.callers(fn)
-		good := len(cs) > 0
-		for _, cs1 := range cs {
-			if cs1.Parent() != pollFn {
+		// every chain of in-package callers ends in (*poller).Poll
+		good := true
+		seenUp := map[*ssa.Function]bool{}
+		var up func(f *ssa.Function, d int)
+		up = func(f *ssa.Function, d int) {
+			if f == pollFn || seenUp[f] {
+				return
+			}
+			seenUp[f] = true
+			cs := p.callers(f)
+			if len(cs) == 0 || d > 4 {
 				good = false
+				return
+			}
+			if obj := f.Object(); obj != nil && obj.Exported() {
+				good = false // callable from outside
+			}
+			for _, cs1 := range cs {
+				up(cs1.Parent(), d+1)
 			}
 		}
+		up(fn, 0)
 		c.check(good, fn, "runs handlers", fn.Pos(), "only called from (*poller).Poll", "posted handlers are run by a function that is called from outside (*poller).Poll")
 	}
 	{
